@@ -852,6 +852,16 @@ type branchOut struct {
 func (in *interp) branch(cond ast.Expr, st *state) []branchOut {
 	cond = ast.Unparen(cond)
 	if be, ok := cond.(*ast.BinaryExpr); ok {
+		if be.Op == token.LAND || be.Op == token.LOR {
+			// a whole-coefficient zero test written limb by limb
+			if vs := in.evalMulti(be, st); len(vs) == 1 {
+				if b, ok := vs[0].(avBool); ok {
+					if _, _, isWhole := in.p.wholeZeroTest(be); isWhole {
+						return []branchOut{{st, b.b}}
+					}
+				}
+			}
+		}
 		switch be.Op {
 		case token.LAND:
 			var outs []branchOut
@@ -1453,6 +1463,19 @@ func (in *interp) evalMulti(e ast.Expr, st *state) []AV {
 		return out
 	case *ast.BinaryExpr:
 		if x.Op == token.LAND || x.Op == token.LOR {
+			// `a[0] == 0 && a[1] == 0` / `a[0] != 0 || a[1] != 0`: a test of the whole coefficient
+			if key, isZero, ok := in.p.wholeZeroTest(x); ok {
+				for o, v := range st.vars {
+					if cv, isCoef := v.(*avCoef); isCoef && fmt.Sprintf("%s@%d", o.Name(), o.Pos()) == key {
+						switch cv.of.class {
+						case "zero":
+							return []AV{avBool{isZero}}
+						case "fin", "one":
+							return []AV{avBool{!isZero}}
+						}
+					}
+				}
+			}
 			ls := in.evalMulti(x.X, st)
 			rs := in.evalMulti(x.Y, st)
 			var out []AV
